@@ -77,11 +77,13 @@ def fix_refs(a, n):
     return a
 
 
-def expr_and_model(op, pool):
-    """Returns (xpath text, callable computing the model result or raising ModelError)."""
+def expr_and_model(op, pool, template=False):
+    """Returns (xpath text, callable computing the model result or raising ModelError).
+    template=True renders every argument as a variable $a0, $a1, ... (and the merge policy as $d), so that
+    one parsed token can be evaluated again and again under different bindings."""
     n = len(pool)
     args = [fix_refs(a, n) for a in op['args']]
-    r = [render(a) for a in args]
+    r = ['$a%d' % i for i in range(len(args))] if template else [render(a) for a in args]
     v = lambda i: mval(args[i], pool)   # noqa: E731
     name = op['name']
     if name == 'map:put':
@@ -92,6 +94,8 @@ def expr_and_model(op, pool):
         d = op.get('dups')
         if d is None:
             return 'map:merge(%s)' % r[0], lambda: M.map_merge(v(0))
+        if template:
+            return "map:merge(%s, map{'duplicates': $d})" % r[0], lambda: M.map_merge(v(0), d)
         return "map:merge(%s, map{'duplicates': '%s'})" % (r[0], d), lambda: M.map_merge(v(0), d)
     if name == 'map:entry':
         return 'map:entry(%s, %s)' % (r[0], r[1]), lambda: M.map_entry(v(0), v(1))
@@ -205,7 +209,7 @@ def gen_case(rng, tier):
     atoms = sorted(set(i for g in enabled for i in KEY_GROUPS[g]))
     nops = rng.randint(3, 40 if thorough else 18)
     fail_rate = rng.choice([0.0, 0.1, 0.25])
-    mode = rng.choice(['select', 'select', 'shared-parser'])
+    mode = rng.choice(['select', 'shared-parser', 'reused-tokens', 'reused-tokens'])
     pool = []       # (kind, model value)
     ops = []
 
@@ -326,6 +330,26 @@ def run_case(case, world):
     shape = []
     pool = []      # (kind, model, engine object)
     observers = {}
+    token_cache = {}
+    lit_cache = {}
+
+    def arg_value(a, pool_):
+        """Python value of an argument spec (pool members are the very same objects)."""
+        if 'p' in a:
+            return pool_[a['p'] % len(pool_)][2] if pool_ else []
+        if 'seq' in a:
+            out = []
+            for x in a['seq']:
+                v_ = arg_value(x, pool_)
+                if isinstance(v_, list):
+                    out.extend(v_)
+                else:
+                    out.append(v_)
+            return out
+        text_ = render(a)
+        if text_ not in lit_cache:
+            lit_cache[text_] = XPath31Parser().parse(text_).evaluate(elementpath.XPathContext(None, item=1))
+        return lit_cache[text_]
 
     class _Obs:
         # token.evaluate(context) keeps arrays as values; select() flattens arrays in its results by design
@@ -428,8 +452,25 @@ def run_case(case, world):
             stats['failing_ops'] += 1
         world.event(('op', idx, text))
         try:
-            parser = shared if shared is not None else XPath31Parser()
-            token = parser.parse(text)
+            if mode == 'reused-tokens':
+                # the same parsed token (call site) is evaluated many times under different bindings
+                ttext, _ = expr_and_model(op, models, template=True)
+                token = token_cache.get(ttext)
+                if token is None:
+                    token = token_cache[ttext] = XPath31Parser().parse(ttext)
+                else:
+                    feats.add('token-reused')
+                n_ = len(models)
+                for ai, a in enumerate(op['args']):
+                    variables['a%d' % ai] = arg_value(fix_refs(a, n_), pool)
+                if op.get('dups') is not None:
+                    variables['d'] = op['dups']
+                text = ttext + ' with ' + ', '.join('$a%d := %s' % (ai, render(fix_refs(a, n_))) for ai, a in enumerate(op['args']))
+                if op.get('dups') is not None:
+                    text += ", $d := '%s'" % op['dups']
+            else:
+                parser = shared if shared is not None else XPath31Parser()
+                token = parser.parse(text)
             got = token.evaluate(elementpath.XPathContext(None, item=1, variables=variables))
             outcome = ['ok', got]
         except Exception as e:
